@@ -67,7 +67,7 @@ def plan(prop, tier):
 
 # operands-focused exploration: every instrumented operation kind at the root, operand shapes below
 OPERANDS_Q = dict(scenario='block_expr', args=dict(policy=expr_profile([OPS, MID_SMALL + ['Array', 'Member', 'Unary'], LEAF], max_args=(2, 1, 0), props=['substring', 'concat', 'foo', 'call'])), label='operations x operand shapes, depth 3 (small alphabet)')
-OPERANDS_T = dict(scenario='block_expr', args=dict(policy=expr_profile([OPS, MID, LEAF_EFF], max_args=(2, 1, 0))), label='operations x operand shapes, depth 3 (full alphabet, effectful leaves)')
+OPERANDS_T = dict(scenario='block_expr', args=dict(policy=expr_profile([OPS, MID + ['Unary', 'Cond'], LEAF], max_args=(2, 1, 0))), label='operations x operand shapes, depth 3 (full alphabet incl. templates, unary, conditional operands)')
 CONTEXTS_Q = dict(scenario='block_expr', args=dict(policy=expr_profile([CTX, OPS, LEAF], max_args=(1, 1, 0), props=['substring', 'foo'])), label='expression contexts x operations, depth 3')
 ALL_D2 = dict(scenario='block_expr', args=dict(policy=expr_profile([TOP_ALL, LEAF_EFF, LEAF], max_args=(2, 0, 0))), label='all expression kinds, depth 2')
 SYMCFG_Q = dict(scenario='block_expr', args=dict(policy=expr_profile([OPS, LEAF], max_args=(1, 1, 0), names=['a', 'substring', 'concat'], props=['substring', 'concat', 'foo']), config=SYM_CFG), label='symbolic method table (3 entries, all fields symbolic) x operations, depth 2')
@@ -108,8 +108,8 @@ def make_scenario(name, args):
 # one top-level item (a block or a function/class declaration ...) holding one statement of every kind, expression slots = `a + b` | identifier
 PLACEMENT_Q = dict(scenario='program', args=dict(policy=stmt_profile([['Block', 'Decl:Fn'], ALL_STMTS, ['Expr', 'Block', 'Return']], [SLOT, ['Ident']], bin_ops=['Add'], names=['a'], op_budget=1, all_present=True), kinds=('Script', 'Module')),
                    label='program{1 item: block|function}{1 statement of every kind}{nested: expr|block|return}, slots `x + y`|ident, script and module')
-PLACEMENT_T = dict(scenario='program', args=dict(policy=stmt_profile([['Block', 'Decl:Fn', 'If', 'Expr', 'Decl:Class'], ALL_STMTS, ['Expr', 'Block', 'Return', 'If', 'Decl:Var']], [['Bin', 'Ident', 'Call', 'Tpl', 'Arrow', 'Assign'], SLOT_LEAF], block_lens=(1, 2)), kinds=('Script', 'Module')),
-                   label='program{1 item}{1-2 statements of every kind}{nested}, slots +|call|template|arrow|assign, script and module')
+PLACEMENT_T = dict(scenario='program', args=dict(policy=stmt_profile([['Block', 'Decl:Fn', 'Decl:Class'], ALL_STMTS, ['Expr', 'Return', 'Decl:Var']], [['Bin', 'Ident', 'Call', 'Tpl', 'Arrow', 'Assign'], ['Ident'], ['Ident']], bin_ops=['Add'], assign_ops=['AddAssign'], names=['a'], op_budget=1, all_present=True), kinds=('Script', 'Module')),
+                   label='program{1 item: block|function|class}{1 statement of every kind}{nested: expr|return|var}, slots +|call|template|arrow|+= (one per program), script and module')
 
 for p in ('C04', 'C07'):
     PLANS[p] = {'quick': [PLACEMENT_Q], 'thorough': [PLACEMENT_Q, PLACEMENT_T]}
@@ -163,9 +163,9 @@ PROTO_STRS = [
 PROTO_Q = dict(scenario='block_expr', args=dict(policy=expr_profile([['Call'], ['Ident', 'Lit', 'Call', 'Array'], ['Ident', 'Lit', 'Array', 'Call'], ['Ident', 'Lit']], max_args=(2, 2, 0, 0), names=['a', 'String']),
                                                 pins=PROTO_PINS, string_pins=PROTO_STRS, config=[dict(src='plusOperator', dst=None, operator=True, awc=False), dict(src='concat', dst='stringConcat', operator=False, awc=False), dict(src='substring', dst=None, operator=False, awc=False)]),
                label='X.prototype.<m>.call|apply(this, arg): method and call/apply symbolic; this/arg in {literal, ident, call, array (nested, spreads, holes)}; 0-2 arguments')
-PROTO_T = dict(scenario='block_expr', args=dict(policy=expr_profile([['Call'], ['Ident', 'Lit', 'Call', 'Array', 'Bin'], ['Ident', 'Lit', 'Array', 'Call'], ['Ident', 'Lit']], max_args=(3, 3, 1, 0), names=['a', 'String']),
+PROTO_T = dict(scenario='block_expr', args=dict(policy=expr_profile([['Call'], ['Ident', 'Lit', 'Call', 'Array', 'Bin', 'Tpl'], ['Ident', 'Lit'], ['Ident']], max_args=(2, 2, 0, 0), names=['a', 'String']),
                                                 pins=PROTO_PINS, string_pins=PROTO_STRS, config=[dict(src='plusOperator', dst=None, operator=True, awc=False), dict(src='concat', dst='stringConcat', operator=False, awc=False), dict(src='substring', dst=None, operator=False, awc=False)]),
-               label='X.prototype.<m>.call|apply(this, args): as quick, 0-3 arguments, `+` operands')
+               label='X.prototype.<m>.call|apply(this, arg): as quick plus `+` operands and nested call arguments')
 for p in ('C02', 'C03', 'C15', 'C12', 'C06'):
     PLANS[p]['quick'] = PLANS[p]['quick'] + [PROTO_Q]
     PLANS[p]['thorough'] = PLANS[p]['thorough'] + [PROTO_T]
